@@ -1,5 +1,7 @@
 import Proofs.HashSound
 import Proofs.Framing
+import Std.Data.String.ToNat
+import Std.Data.String.ToInt
 /-!
 The converse of `HashSound` for the DeepHash model: equal digests decode — for an injective hasher with
 separator-free outputs, inside NoSpoof — to the ignore-order verdict.  Together:
@@ -137,5 +139,487 @@ theorem pre_analysis (c : IOCfg) (H : String → String) (hinj : Function.Inject
           have h2 := (colon_split _ _ _ _ hstr hstr h').2
           have h3 := colon_split _ _ _ _ (tag_no_colon _) (tag_no_colon _) h2
           exact Or.inr (Or.inr (Or.inr ⟨rfl, rfl, h3.1, h3.2⟩))))
+
+/-! ### hash tables have one entry per hash -/
+
+theorem tstep_map_h (hashOf : PyVal → String) (acc : List HEntry) (p : PyVal × Nat) :
+    (tstep hashOf acc p).map (·.h) = if acc.any (fun e => e.h == hashOf p.1) then acc.map (·.h) else acc.map (·.h) ++ [hashOf p.1] := by
+  unfold tstep
+  split
+  · rw [List.map_map]
+    apply List.map_congr_left
+    intro e _
+    simp only [Function.comp]
+    split <;> rfl
+  · simp
+
+theorem foldl_nodupH (hashOf : PyVal → String) :
+    ∀ (l : List (PyVal × Nat)) (acc : List HEntry), (acc.map (·.h)).Nodup → ((l.foldl (tstep hashOf) acc).map (·.h)).Nodup := by
+  intro l
+  induction l with
+  | nil => intro acc h; simpa using h
+  | cons p l ih =>
+    intro acc h
+    rw [List.foldl_cons]
+    apply ih
+    rw [tstep_map_h]
+    split
+    · exact h
+    · rename_i hany
+      rw [List.nodup_append]
+      refine ⟨h, by simp, ?_⟩
+      intro a ha b hb
+      simp only [List.mem_singleton] at hb
+      subst hb
+      intro heq
+      apply hany
+      rw [List.any_eq_true]
+      obtain ⟨e, he, rfl⟩ := List.mem_map.1 ha
+      exact ⟨e, he, by simp [heq]⟩
+
+theorem hashTable_nodupH (hashOf : PyVal → String) (xs : List PyVal) : ((hashTable hashOf xs).map (·.h)).Nodup := by
+  rw [hashTable_eq_foldl]
+  exact foldl_nodupH hashOf _ [] (by simp)
+
+theorem find_of_nodupH : ∀ (t : List HEntry), (t.map (·.h)).Nodup → ∀ e ∈ t, t.find? (fun e' => e'.h == e.h) = some e
+  | [], _, e, he => by simp at he
+  | x :: t, hn, e, he => by
+    rw [List.map_cons, List.nodup_cons] at hn
+    rcases List.mem_cons.1 he with rfl | he'
+    · simp
+    · have hne : x.h ≠ e.h := fun heq => hn.1 (heq ▸ List.mem_map.2 ⟨e, he', rfl⟩)
+      rw [List.find?_cons]
+      have : (x.h == e.h) = false := by simpa using hne
+      rw [this]
+      exact find_of_nodupH t hn.2 e he'
+
+/-- from equal members (and multiplicities, when repetition counts) to the list verdict -/
+theorem iter_verdict_of (c : IOCfg) (hashOf : PyVal → String) (xs ys : List PyVal)
+    (hmem : ∀ h, h ∈ xs.map hashOf ↔ h ∈ ys.map hashOf)
+    (hcnt : c.rep = true → ∀ h, (xs.map hashOf).count h = (ys.map hashOf).count h) :
+    ((addedOf (hashTable hashOf xs) (hashTable hashOf ys)).isEmpty && (removedOf (hashTable hashOf xs) (hashTable hashOf ys)).isEmpty &&
+      (repEntries c [] (hashTable hashOf xs) (hashTable hashOf ys)).isEmpty) = true := by
+  simp only [Bool.and_eq_true, isEmpty_iff_nil]
+  refine ⟨⟨?_, ?_⟩, ?_⟩
+  · rw [addedOf_nil_iff]
+    intro e he
+    exact (hashTable_hasH hashOf xs e.h).2 ((hmem e.h).2 ((hashTable_hasH hashOf ys e.h).1 ⟨e, he, rfl⟩))
+  · rw [removedOf_nil_iff]
+    intro e he
+    exact (hashTable_hasH hashOf ys e.h).2 ((hmem e.h).1 ((hashTable_hasH hashOf xs e.h).1 ⟨e, he, rfl⟩))
+  · unfold repEntries
+    cases hrep : c.rep with
+    | false => simp
+    | true =>
+      simp only [if_true, List.filterMap_eq_nil_iff]
+      intro e2 he2
+      cases hf1 : (hashTable hashOf xs).find? (fun e1 => e1.h == e2.h) with
+      | none => rfl
+      | some e1 =>
+        have h1 : cnt (hashTable hashOf xs) e2.h = e1.idxs.length := by unfold cnt; rw [hf1]; rfl
+        have h2 : cnt (hashTable hashOf ys) e2.h = e2.idxs.length := by
+          unfold cnt; rw [find_of_nodupH _ (hashTable_nodupH hashOf ys) e2 he2]; rfl
+        rw [hashTable_cnt] at h1 h2
+        have := hcnt hrep e2.h
+        have hlen : e1.idxs.length = e2.idxs.length := by omega
+        simp [hlen]
+
+/-! ### reading the members (and multiplicities) back from a serialised iterable -/
+
+/-- a digest-like string: non-empty, none of the framing characters -/
+def HexS (s : String) : Prop := s ≠ "" ∧ ∀ ch ∈ s.toList, ch ≠ ',' ∧ ch ≠ '|' ∧ ch ≠ ':' ∧ ch ≠ ';'
+
+def itemsOf (cfg : HCfg) (hs : List String) : List String :=
+  let d := countDedup hs
+  sortStr (if cfg.ignoreRepetition then d.map (·.1) else d.map (fun p => p.1 ++ "|" ++ toString p.2))
+
+theorem sortStr_perm_self (xs : List String) : (sortStr xs).Perm xs := List.mergeSort_perm _ _
+
+theorem digits_of_toString (n : Nat) : ∀ ch ∈ (toString n).toList, ch.isDigit = true := by
+  intro ch h
+  have e : (toString n).toList = Nat.toDigits 10 n := by simp [toString, Nat.repr]
+  rw [e] at h
+  exact Nat.isDigit_of_mem_toDigits (by decide) (by decide) h
+
+theorem toString_nat_inj {m n : Nat} (h : toString m = toString n) : m = n := Nat.repr_injective h
+
+theorem countDedup_fst (hs : List String) : (countDedup hs).map (·.1) = dedupFirst hs := by
+  unfold countDedup
+  rw [List.map_map]
+  have : ((fun p : String × Nat => p.1) ∘ fun x => (x, List.count x hs)) = id := rfl
+  rw [this, List.map_id]
+
+theorem countDedup_item (hs : List String) :
+    (countDedup hs).map (fun p => p.1 ++ "|" ++ toString p.2) = (dedupFirst hs).map (fun x => x ++ "|" ++ toString (hs.count x)) := by
+  unfold countDedup
+  rw [List.map_map]
+  rfl
+
+theorem item_split (h h' : String) (n n' : Nat) (hh : HexS h) (hh' : HexS h')
+    (he : h ++ "|" ++ toString n = h' ++ "|" ++ toString n') : h = h' ∧ n = n' := by
+  have e : ("|" : String) = String.singleton '|' := by decide
+  rw [e] at he
+  have hb : ∀ s, HexS s → '|' ∉ s.toList := fun s hs hm => (hs.2 _ hm).2.1 rfl
+  obtain ⟨h1, h2⟩ := append_sep_str_inj '|' _ _ _ _ (hb h hh) (hb h' hh') he
+  exact ⟨h1, toString_nat_inj h2⟩
+
+theorem items_parts (cfg : HCfg) (hs : List String) (hx : ∀ h ∈ hs, HexS h) :
+    ∀ x ∈ itemsOf cfg hs, ',' ∉ x.toList ∧ x ≠ "" := by
+  intro x hxm
+  unfold itemsOf at hxm
+  rw [(sortStr_perm_self _).mem_iff] at hxm
+  cases hrep : cfg.ignoreRepetition with
+  | true =>
+    simp only [hrep, if_true] at hxm
+    rw [countDedup_fst, mem_dedupFirst] at hxm
+    have := hx x hxm
+    exact ⟨fun hm => (this.2 _ hm).1 rfl, this.1⟩
+  | false =>
+    simp only [hrep, Bool.false_eq_true, if_false] at hxm
+    rw [countDedup_item] at hxm
+    obtain ⟨h, hh, rfl⟩ := List.mem_map.1 hxm
+    rw [mem_dedupFirst] at hh
+    have := hx h hh
+    constructor
+    · intro hm
+      simp only [String.toList_append, List.mem_append] at hm
+      rcases hm with (hm | hm) | hm
+      · exact (this.2 _ hm).1 rfl
+      · revert hm; decide
+      · have := digits_of_toString _ _ hm
+        revert this; decide
+    · intro he
+      have := congrArg String.toList he
+      simp [String.toList_append] at this
+
+/-- equal serialisations list the same item hashes (with the same multiplicities unless repetition is ignored) -/
+theorem items_inv (cfg : HCfg) (hs1 hs2 : List String) (h1 : ∀ h ∈ hs1, HexS h) (h2 : ∀ h ∈ hs2, HexS h)
+    (h : joinWith "," (itemsOf cfg hs1) = joinWith "," (itemsOf cfg hs2)) :
+    (∀ x, x ∈ hs1 ↔ x ∈ hs2) ∧ (cfg.ignoreRepetition = false → ∀ x, hs1.count x = hs2.count x) := by
+  have e : ("," : String) = String.singleton ',' := by decide
+  rw [e] at h
+  have hitems := joinWith_inj ',' _ _ (items_parts cfg hs1 h1) (items_parts cfg hs2 h2) h
+  unfold itemsOf at hitems
+  cases hrep : cfg.ignoreRepetition with
+  | true =>
+    simp only [hrep, if_true, countDedup_fst] at hitems
+    have hp : (dedupFirst hs1).Perm (dedupFirst hs2) :=
+      (sortStr_perm_self _).symm.trans (hitems ▸ sortStr_perm_self _)
+    refine ⟨fun x => ?_, fun hf => by simp at hf⟩
+    rw [← mem_dedupFirst, ← mem_dedupFirst (hs := hs2)]
+    exact hp.mem_iff
+  | false =>
+    simp only [hrep, Bool.false_eq_true, if_false, countDedup_item] at hitems
+    have hp : ((dedupFirst hs1).map (fun x => x ++ "|" ++ toString (hs1.count x))).Perm
+              ((dedupFirst hs2).map (fun x => x ++ "|" ++ toString (hs2.count x))) :=
+      (sortStr_perm_self _).symm.trans (hitems ▸ sortStr_perm_self _)
+    have key : ∀ (a b : List String), (∀ h ∈ a, HexS h) → (∀ h ∈ b, HexS h) →
+        (∀ y, y ∈ (dedupFirst a).map (fun x => x ++ "|" ++ toString (a.count x)) → y ∈ (dedupFirst b).map (fun x => x ++ "|" ++ toString (b.count x))) →
+        ∀ x ∈ a, x ∈ b ∧ a.count x = b.count x := by
+      intro a b ha hb hsub x hxa
+      have := hsub _ (List.mem_map.2 ⟨x, mem_dedupFirst.2 hxa, rfl⟩)
+      obtain ⟨x', hx', heq⟩ := List.mem_map.1 this
+      rw [mem_dedupFirst] at hx'
+      obtain ⟨e1, e2⟩ := item_split _ _ _ _ (hb x' hx') (ha x hxa) heq
+      subst e1
+      exact ⟨hx', e2.symm⟩
+    have k12 := key hs1 hs2 h1 h2 (fun y hy => hp.mem_iff.1 hy)
+    have k21 := key hs2 hs1 h2 h1 (fun y hy => hp.mem_iff.2 hy)
+    refine ⟨fun x => ⟨fun hx => (k12 x hx).1, fun hx => (k21 x hx).1⟩, fun _ x => ?_⟩
+    by_cases hx : x ∈ hs1
+    · exact (k12 x hx).2
+    · have hx' : x ∉ hs2 := fun hm => hx (k21 x hm).1
+      rw [List.count_eq_zero_of_not_mem hx, List.count_eq_zero_of_not_mem hx']
+
+/-! ### the converse of `HashSound`, one level (everything but dictionaries) -/
+
+theorem verdict_leaf_refl (c : IOCfg) (hashOf : PyVal → String) (a : PyVal) (ha : isBasic a = true) : verdict c hashOf a a = true := by
+  cases a <;> simp [isBasic] at ha <;> simp [verdict, typeName, leafDiff, numEq, numOf]
+
+theorem hex_map (c : IOCfg) (H : String → String) (hex : Hex H) (xs : List PyVal) : ∀ h ∈ xs.map (dh c H), HexS h := by
+  intro h hm
+  obtain ⟨x, _, rfl⟩ := List.mem_map.1 hm
+  rw [dh_pre]
+  exact hex _
+
+theorem set_verdict_of (hashOf : PyVal → String) (xs ys : List PyVal) (hmem : ∀ h, h ∈ xs.map hashOf ↔ h ∈ ys.map hashOf) :
+    (diffSet hashOf [] xs ys).isEmpty = true := by
+  rw [isEmpty_iff_nil]
+  unfold diffSet
+  simp only [List.append_eq_nil_iff, List.map_eq_nil_iff, List.filter_eq_nil_iff]
+  constructor
+  · intro y hy
+    have := (hmem (hashOf y)).2 (List.mem_map.2 ⟨y, hy, rfl⟩)
+    simpa using this
+  · intro x hx
+    have := (hmem (hashOf x)).1 (List.mem_map.2 ⟨x, hx, rfl⟩)
+    simpa using this
+
+/-- equal digests of two values that are not dictionaries: the order-ignoring verdict holds (so the
+order-ignoring diff is empty), for an injective hasher with separator-free digests, inside NoSpoof -/
+theorem hashComplete_nondict (c : IOCfg) (H : String → String) (hinj : Function.Injective H) (hex : Hex H) (hrepr : ReprInj)
+    (a b : PyVal) (hsa : ∀ s, a = .str s → noSpoofS s) (hsb : ∀ s, b = .str s → noSpoofS s)
+    (hfa : ∀ n s, a = .float n s → canonFloat n s) (hfb : ∀ n s, b = .float n s → canonFloat n s)
+    (hnd : ∀ kvs, a ≠ .dict kvs) (h : dh c H a = dh c H b) : verdict c (dh c H) a b = true := by
+  rcases pre_analysis c H hinj a b hsa hsb h with ⟨s, rfl, rfl⟩ | ⟨s, rfl, rfl⟩ | ⟨rfl, rfl⟩ | ⟨hoa, hob, htag, hrest⟩
+  · exact verdict_leaf_refl _ _ _ rfl
+  · exact verdict_leaf_refl _ _ _ rfl
+  · exact verdict_leaf_refl _ _ _ rfl
+  · have iter : ∀ xs ys : List PyVal,
+        joinWith "," (itemsOf (hcfg c) (xs.map (dh c H))) = joinWith "," (itemsOf (hcfg c) (ys.map (dh c H))) →
+        (∀ h, h ∈ xs.map (dh c H) ↔ h ∈ ys.map (dh c H)) ∧ (c.rep = true → ∀ h, (xs.map (dh c H)).count h = (ys.map (dh c H)).count h) := by
+      intro xs ys he
+      obtain ⟨h1, h2⟩ := items_inv (hcfg c) _ _ (hex_map c H hex xs) (hex_map c H hex ys) he
+      exact ⟨h1, fun hr => h2 (by simp [hcfg, hr])⟩
+    cases a <;> simp [isOther] at hoa <;> cases b <;> simp [isOther, tagOf] at hob htag
+    · -- bool
+      rename_i x y
+      have : x = y := by
+        cases x <;> cases y <;> simp [restOf] at hrest <;> first | rfl | (exfalso; revert hrest; decide)
+      subst this
+      exact verdict_leaf_refl _ _ _ rfl
+    · rename_i x y
+      have : x = y := Int.repr_injective (by simpa [restOf] using hrest)
+      subst this
+      exact verdict_leaf_refl _ _ _ rfl
+    · rename_i n s n' s'
+      obtain ⟨e1, e2⟩ := hrepr n n' s s' (hfa n s rfl) (hfb n' s' rfl) (by simpa [restOf] using hrest)
+      subst e1; subst e2
+      exact verdict_leaf_refl _ _ _ rfl
+    · rename_i xs ys
+      obtain ⟨hm, hc⟩ := iter xs ys hrest
+      simp only [verdict]
+      exact iter_verdict_of c (dh c H) xs ys hm hc
+    · rename_i xs ys
+      obtain ⟨hm, hc⟩ := iter xs ys hrest
+      simp only [verdict]
+      exact iter_verdict_of c (dh c H) xs ys hm hc
+    · rename_i xs ys
+      obtain ⟨hm, _⟩ := iter xs ys hrest
+      simp only [verdict]
+      exact set_verdict_of (dh c H) xs ys hm
+    · rename_i xs ys
+      obtain ⟨hm, _⟩ := iter xs ys hrest
+      simp only [verdict]
+      exact set_verdict_of (dh c H) xs ys hm
+    · rename_i kvs _
+      exact absurd rfl (hnd kvs)
+
+/-! ### dictionaries, and the full converse -/
+
+mutual
+/-- the domain of `hashComplete`: NoSpoof for string leaves, canonical floats, and (recursively through
+dictionary values) dictionaries with pairwise different, hashable keys from the key universe `K` -/
+def domC (K : List PyVal) : PyVal → Prop
+  | .dict kvs => distinctKeys (kvs.map (·.1)) = true ∧ (∀ k ∈ kvs.map (·.1), hashable k = true ∧ k ∈ K) ∧ domCP K kvs
+  | .str s => noSpoofS s
+  | .float n s => canonFloat n s
+  | _ => True
+def domCP (K : List PyVal) : List (PyVal × PyVal) → Prop
+  | [] => True
+  | (_, v) :: rest => domC K v ∧ domCP K rest
+end
+
+theorem domCP_all {K : List PyVal} : ∀ {kvs : List (PyVal × PyVal)}, domCP K kvs → ∀ p ∈ kvs, domC K p.2
+  | [], _, p, hp => by simp at hp
+  | (k, v) :: rest, h, p, hp => by
+    simp only [domCP] at h
+    rcases List.mem_cons.1 hp with rfl | hp'
+    · exact h.1
+    · exact domCP_all h.2 p hp'
+
+/-- the keys of the universe are scalars inside NoSpoof -/
+def KeyOk (K : List PyVal) : Prop := ∀ k ∈ K, isBasic k = true ∧ domC K k
+
+theorem hs_of_domC {K : List PyVal} {a : PyVal} (h : domC K a) : ∀ s, a = .str s → noSpoofS s := by
+  intro s e; subst e; simpa [domC] using h
+
+theorem hf_of_domC {K : List PyVal} {a : PyVal} (h : domC K a) : ∀ n s, a = .float n s → canonFloat n s := by
+  intro n s e; subst e; simpa [domC] using h
+
+/-- scalars inside NoSpoof with equal digests are the same scalar -/
+theorem dh_leaf_inj (c : IOCfg) (H : String → String) (hinj : Function.Injective H) (hrepr : ReprInj) (a b : PyVal)
+    (ha : isBasic a = true) (hb : isBasic b = true)
+    (hsa : ∀ s, a = .str s → noSpoofS s) (hsb : ∀ s, b = .str s → noSpoofS s)
+    (hfa : ∀ n s, a = .float n s → canonFloat n s) (hfb : ∀ n s, b = .float n s → canonFloat n s)
+    (h : dh c H a = dh c H b) : a = b := by
+  rcases pre_analysis c H hinj a b hsa hsb h with ⟨s, rfl, rfl⟩ | ⟨s, rfl, rfl⟩ | ⟨rfl, rfl⟩ | ⟨hoa, hob, htag, hrest⟩
+  · rfl
+  · rfl
+  · rfl
+  · cases a <;> simp [isOther] at hoa <;> simp [isBasic] at ha <;> cases b <;> simp [isOther, tagOf] at hob htag
+    · rename_i x y
+      have : x = y := by
+        cases x <;> cases y <;> simp [restOf] at hrest <;> first | rfl | (exfalso; revert hrest; decide)
+      rw [this]
+    · rename_i x y
+      have : x = y := Int.repr_injective (by simpa [restOf] using hrest)
+      rw [this]
+    · rename_i n s n' s'
+      obtain ⟨e1, e2⟩ := hrepr n n' s s' (hfa n s rfl) (hfb n' s' rfl) (by simpa [restOf] using hrest)
+      rw [e1, e2]
+
+theorem entry_parts (c : IOCfg) (H : String → String) (hex : Hex H) (k v : PyVal) :
+    ';' ∉ (dh c H k ++ ":" ++ dh c H v).toList ∧ dh c H k ++ ":" ++ dh c H v ≠ "" := by
+  have hk : HexS (dh c H k) := by rw [dh_pre]; exact hex _
+  have hv : HexS (dh c H v) := by rw [dh_pre]; exact hex _
+  constructor
+  · intro hm
+    simp only [String.toList_append, List.mem_append] at hm
+    rcases hm with (hm | hm) | hm
+    · exact (hk.2 _ hm).2.2.2 rfl
+    · revert hm; decide
+    · exact (hv.2 _ hm).2.2.2 rfl
+  · intro he
+    have := congrArg String.toList he
+    simp [String.toList_append] at this
+
+theorem dict_complete (K : List PyVal) (hK : StrictK K) (hKo : KeyOk K) (c : IOCfg) (H : String → String)
+    (hinj : Function.Injective H) (hex : Hex H) (hrepr : ReprInj) (kvs1 kvs2 : List (PyVal × PyVal))
+    (hd1 : domC K (.dict kvs1)) (hd2 : domC K (.dict kvs2))
+    (ihP : ∀ p ∈ kvs1, ∀ y, domC K p.2 → domC K y → dh c H p.2 = dh c H y → verdict c (dh c H) p.2 y = true)
+    (hrest : restOf c H (.dict kvs1) = restOf c H (.dict kvs2)) : verdict c (dh c H) (.dict kvs1) (.dict kvs2) = true := by
+  simp only [domC] at hd1 hd2
+  obtain ⟨hdk1, hkk1, hp1⟩ := hd1
+  obtain ⟨hdk2, hkk2, hp2⟩ := hd2
+  simp only [restOf] at hrest
+  rw [entries_by_keys c H kvs1 hdk1 (fun k hk => (hkk1 k hk).1), entries_by_keys c H kvs2 hdk2 (fun k hk => (hkk2 k hk).1)] at hrest
+  unfold verdict
+  simp only [Bool.and_eq_true, isEmpty_iff_nil, List.all_eq_true]
+  have hsub1 : ∀ k ∈ keysOf (toDCfg c) [] kvs1, k ∈ kvs1.map (·.1) := fun k hk => (List.mem_filter.1 hk).1
+  have hsub2 : ∀ k ∈ keysOf (toDCfg c) [] kvs2, k ∈ kvs2.map (·.1) := fun k hk => (List.mem_filter.1 hk).1
+  have hnpOf : ∀ kvs k, k ∈ keysOf (toDCfg c) [] kvs → (c.ignorePrivate && isPrivate k) = false := by
+    intro kvs k hk
+    have := (List.mem_filter.1 hk).2
+    simp only [toDCfg, Bool.and_eq_true, Bool.not_eq_true'] at this
+    exact this.1
+  generalize hk1 : keysOf (toDCfg c) [] kvs1 = k1 at *
+  generalize hk2 : keysOf (toDCfg c) [] kvs2 = k2 at *
+  -- strip the braces and the separators
+  have hJ : joinWith ";" (sortStr (k1.map (fun k => dh c H k ++ ":" ++ dh c H (valOf kvs1 k)))) =
+            joinWith ";" (sortStr (k2.map (fun k => dh c H k ++ ":" ++ dh c H (valOf kvs2 k)))) := by
+    have h' := congrArg String.toList hrest
+    simp only [String.toList_append] at h'
+    exact String.toList_inj.1 (List.append_cancel_left (List.append_cancel_right h'))
+  have e : (";" : String) = String.singleton ';' := by decide
+  rw [e] at hJ
+  have parts : ∀ (ks : List PyVal) (kvs : List (PyVal × PyVal)),
+      ∀ x ∈ sortStr (ks.map (fun k => dh c H k ++ ":" ++ dh c H (valOf kvs k))), ';' ∉ x.toList ∧ x ≠ "" := by
+    intro ks kvs x hx
+    rw [(sortStr_perm_self _).mem_iff] at hx
+    obtain ⟨k, _, rfl⟩ := List.mem_map.1 hx
+    exact entry_parts c H hex k _
+  have hS := joinWith_inj ';' _ _ (parts k1 kvs1) (parts k2 kvs2) hJ
+  have hperm : (k1.map (fun k => dh c H k ++ ":" ++ dh c H (valOf kvs1 k))).Perm (k2.map (fun k => dh c H k ++ ":" ++ dh c H (valOf kvs2 k))) :=
+    (sortStr_perm_self _).symm.trans (hS ▸ sortStr_perm_self _)
+  have hcol : ∀ v : PyVal, ':' ∉ (dh c H v).toList := by
+    intro v hm
+    have : HexS (dh c H v) := by rw [dh_pre]; exact hex _
+    exact (this.2 _ hm).2.2.1 rfl
+  -- an entry of one side is an entry of the other: same key, values with equal digests
+  have key : ∀ (ka kb : List PyVal) (kvsa kvsb : List (PyVal × PyVal)),
+      (∀ k ∈ ka, k ∈ K) → (∀ k ∈ kb, k ∈ K) →
+      (∀ y, y ∈ ka.map (fun k => dh c H k ++ ":" ++ dh c H (valOf kvsa k)) → y ∈ kb.map (fun k => dh c H k ++ ":" ++ dh c H (valOf kvsb k))) →
+      ∀ k ∈ ka, k ∈ kb ∧ dh c H (valOf kvsa k) = dh c H (valOf kvsb k) := by
+    intro ka kb kvsa kvsb hka hkb hsub k hk
+    have := hsub _ (List.mem_map.2 ⟨k, hk, rfl⟩)
+    obtain ⟨k', hk', heq⟩ := List.mem_map.1 this
+    obtain ⟨e1, e2⟩ := colon_split _ _ _ _ (hcol k') (hcol k) heq
+    have ho := hKo k (hka k hk)
+    have ho' := hKo k' (hkb k' hk')
+    have : k' = k := dh_leaf_inj c H hinj hrepr k' k ho'.1 ho.1 (hs_of_domC ho'.2) (hs_of_domC ho.2) (hf_of_domC ho'.2) (hf_of_domC ho.2) e1
+    subst this
+    exact ⟨hk', e2.symm⟩
+  have hK1 : ∀ k ∈ k1, k ∈ K := fun k hk => (hkk1 k (hsub1 k hk)).2
+  have hK2 : ∀ k ∈ k2, k ∈ K := fun k hk => (hkk2 k (hsub2 k hk)).2
+  have k12 := key k1 k2 kvs1 kvs2 hK1 hK2 (fun y hy => hperm.mem_iff.1 hy)
+  have k21 := key k2 k1 kvs2 kvs1 hK2 hK1 (fun y hy => hperm.mem_iff.2 hy)
+  refine ⟨⟨?_, ?_⟩, ?_⟩
+  · rw [List.filter_eq_nil_iff]
+    intro k hk
+    simp only [Bool.not_eq_true, Bool.not_eq_false', List.any_eq_true]
+    exact ⟨k, (k21 k hk).1, keyEq_refl k (hkk2 k (hsub2 k hk)).1⟩
+  · rw [List.filter_eq_nil_iff]
+    intro k hk
+    simp only [Bool.not_eq_true, Bool.not_eq_false', List.any_eq_true]
+    exact ⟨k, (k12 k hk).1, keyEq_refl k (hkk1 k (hsub1 k hk)).1⟩
+  · intro k hinter
+    have hk : k ∈ k2 := (List.mem_filter.1 hinter).1
+    have hk1m : k ∈ k1 := (k21 k hk).1
+    obtain ⟨⟨ka, v1⟩, hp1m0, hp1k⟩ := List.mem_map.1 (hsub1 k hk1m)
+    obtain ⟨⟨kb, v2⟩, hp2m0, hp2k⟩ := List.mem_map.1 (hsub2 k hk)
+    simp only at hp1k hp2k
+    have hp1m : (k, v1) ∈ kvs1 := by rw [← hp1k]; exact hp1m0
+    have hp2m : (k, v2) ∈ kvs2 := by rw [← hp2k]; exact hp2m0
+    have hhk : hashable k = true := (hkk1 k (hsub1 k hk1m)).1
+    have hkK : k ∈ K := hK1 k hk1m
+    have hg1 : dictGet kvs1 k = some v1 := dictGet_self kvs1 k v1 hdk1 hhk hp1m
+    have hg2 : dictGet kvs2 k = some v2 := dictGet_self kvs2 k v2 hdk2 hhk hp2m
+    have hnp : (c.ignorePrivate && isPrivate k) = false := hnpOf kvs1 k (by rw [hk1]; exact hk1m)
+    have hfind : k2.find? (fun x => keyEq k x) = some k := by
+      cases hf : k2.find? (fun x => keyEq k x) with
+      | none =>
+        have := List.find?_eq_none.1 hf k hk
+        simp [keyEq_refl k hhk] at this
+      | some x =>
+        have hx : x ∈ k2 := List.mem_of_find?_eq_some hf
+        have hxe : keyEq k x = true := by have := List.find?_some hf; simpa using this
+        rw [hK k hkK x (hK2 x hx) hxe]
+    have hmemV : (k, verdict c (dh c H) v1 v2) ∈ verdictKVs c (dh c H) kvs1 kvs2 k2 :=
+      (mem_verdictKVs c (dh c H) kvs2 k2 kvs1 _).2 ⟨k, v1, k, v2, hp1m, hnp, hfind, hg2, rfl⟩
+    have hfu : (verdictKVs c (dh c H) kvs1 kvs2 k2).find? (fun p => keyEq p.1 k) = some (k, verdict c (dh c H) v1 v2) := by
+      apply find_unique _ _ _ (keyEq_refl k hhk) hmemV
+      intro q hq hqk
+      obtain ⟨ka, va, kk, vb, hma, _, hfa, hgb, rfl⟩ := (mem_verdictKVs c (dh c H) kvs2 k2 kvs1 q).1 hq
+      have hkk2m : kk ∈ k2 := List.mem_of_find?_eq_some hfa
+      have hkke : keyEq ka kk = true := by have := List.find?_some hfa; simpa using this
+      have hkaK : ka ∈ K := (hkk1 ka (List.mem_map.2 ⟨(ka, va), hma, rfl⟩)).2
+      have hkkK : kk ∈ K := hK2 kk hkk2m
+      have e1 : kk = k := hK kk hkkK k hkK hqk
+      have e2 : ka = kk := hK ka hkaK kk hkkK hkke
+      subst e1
+      subst e2
+      have : dictGet kvs1 ka = some va := dictGet_self kvs1 ka va hdk1 hhk hma
+      rw [hg1] at this
+      rw [hg2] at hgb
+      cases this; cases hgb
+      rfl
+    rw [hfu]
+    simp only
+    have hv := (k12 k hk1m).2
+    simp only [valOf, hg1, hg2, Option.getD_some] at hv
+    exact ihP (k, v1) hp1m v2 (domCP_all hp1 _ hp1m) (domCP_all hp2 _ hp2m) hv
+
+mutual
+/-- **the converse of HashSound for the DeepHash model**: inside the domain, values with equal digests are
+values the ignore-order verdict cannot tell apart -/
+theorem hashComplete_V (K : List PyVal) (hK : StrictK K) (hKo : KeyOk K) (c : IOCfg) (H : String → String)
+    (hinj : Function.Injective H) (hex : Hex H) (hrepr : ReprInj) :
+    ∀ (x y : PyVal), domC K x → domC K y → dh c H x = dh c H y → verdict c (dh c H) x y = true
+  | .dict kvs1, y, dx, dy, h => by
+    rcases pre_analysis c H hinj (.dict kvs1) y (hs_of_domC dx) (hs_of_domC dy) h with ⟨s, e, _⟩ | ⟨s, e, _⟩ | ⟨e, _⟩ | ⟨_, hob, htag, hrest⟩
+    · cases e
+    · cases e
+    · cases e
+    · cases y <;> simp [isOther, tagOf] at hob htag
+      rename_i kvs2
+      exact dict_complete K hK hKo c H hinj hex hrepr kvs1 kvs2 dx dy (hashComplete_P K hK hKo c H hinj hex hrepr kvs1) hrest
+  | .list xs, y, dx, dy, h => hashComplete_nondict c H hinj hex hrepr _ y (hs_of_domC dx) (hs_of_domC dy) (hf_of_domC dx) (hf_of_domC dy) (by intro kvs e; cases e) h
+  | .tuple xs, y, dx, dy, h => hashComplete_nondict c H hinj hex hrepr _ y (hs_of_domC dx) (hs_of_domC dy) (hf_of_domC dx) (hf_of_domC dy) (by intro kvs e; cases e) h
+  | .set xs, y, dx, dy, h => hashComplete_nondict c H hinj hex hrepr _ y (hs_of_domC dx) (hs_of_domC dy) (hf_of_domC dx) (hf_of_domC dy) (by intro kvs e; cases e) h
+  | .frozenset xs, y, dx, dy, h => hashComplete_nondict c H hinj hex hrepr _ y (hs_of_domC dx) (hs_of_domC dy) (hf_of_domC dx) (hf_of_domC dy) (by intro kvs e; cases e) h
+  | .none, y, dx, dy, h => hashComplete_nondict c H hinj hex hrepr _ y (hs_of_domC dx) (hs_of_domC dy) (hf_of_domC dx) (hf_of_domC dy) (by intro kvs e; cases e) h
+  | .bool _, y, dx, dy, h => hashComplete_nondict c H hinj hex hrepr _ y (hs_of_domC dx) (hs_of_domC dy) (hf_of_domC dx) (hf_of_domC dy) (by intro kvs e; cases e) h
+  | .int _, y, dx, dy, h => hashComplete_nondict c H hinj hex hrepr _ y (hs_of_domC dx) (hs_of_domC dy) (hf_of_domC dx) (hf_of_domC dy) (by intro kvs e; cases e) h
+  | .float _ _, y, dx, dy, h => hashComplete_nondict c H hinj hex hrepr _ y (hs_of_domC dx) (hs_of_domC dy) (hf_of_domC dx) (hf_of_domC dy) (by intro kvs e; cases e) h
+  | .str _, y, dx, dy, h => hashComplete_nondict c H hinj hex hrepr _ y (hs_of_domC dx) (hs_of_domC dy) (hf_of_domC dx) (hf_of_domC dy) (by intro kvs e; cases e) h
+  | .bytes _, y, dx, dy, h => hashComplete_nondict c H hinj hex hrepr _ y (hs_of_domC dx) (hs_of_domC dy) (hf_of_domC dx) (hf_of_domC dy) (by intro kvs e; cases e) h
+theorem hashComplete_P (K : List PyVal) (hK : StrictK K) (hKo : KeyOk K) (c : IOCfg) (H : String → String)
+    (hinj : Function.Injective H) (hex : Hex H) (hrepr : ReprInj) :
+    ∀ (kvs : List (PyVal × PyVal)) (p : PyVal × PyVal), p ∈ kvs → ∀ (y : PyVal), domC K p.2 → domC K y →
+      dh c H p.2 = dh c H y → verdict c (dh c H) p.2 y = true
+  | (_, v) :: _, _, .head _, y, d1, d2, h => hashComplete_V K hK hKo c H hinj hex hrepr v y d1 d2 h
+  | _ :: rest, p, .tail _ hm, y, d1, d2, h => hashComplete_P K hK hKo c H hinj hex hrepr rest p hm y d1 d2 h
+end
 
 end DiffIO
